@@ -387,7 +387,7 @@ func init() {
 		Rule:   "stateless model checking of the real (rewritten) corebgp: WriteUpdate called from inside OnEstablished, from inside the handler and from 1-3 free goroutines (bodies of 0, 1, 23, 4077 bytes) whose writes coincide in virtual time with the keepalive timer (hold 9 s) and with one of {nothing, remote FIN, received NOTIFICATION, handler-returned NOTIFICATION, Close}; after a teardown corebgp reconnects and the old writers are used again; variants in which OnClose joins the writers' pending calls; all schedules within the delay bound (2 quick / 3 thorough; 3 writers: one less); strict frame parser over every byte corebgp wrote per connection, multiset/ordering comparison with the WriteUpdate return values, race detector on; plus a stalled-reader scenario on a network with a bounded window (blocked and timed-out writes: whatever is on the wire must still be whole messages and the session must end); distinct_nontrivial = distinct observable outcomes",
 		Assume: []string{"delay-bounded schedules", "virtual network (A3): net.Conn.Write is atomic with respect to concurrent writers (true for *net.TCPConn)", "race detector scope A5"},
 		Run: func(c *harness.Ctx) {
-			for i, s := range c04Scenarios(c.Thorough()) {
+			for i, s := range withLegacy(c04Scenarios(c.Thorough()), legacyEvery(c.Thorough(), 3)) {
 				if !c.Mine(i) {
 					continue
 				}
